@@ -22,7 +22,10 @@
       ESend k    [threads[k-1].send(task)] (111-113) meeting worker k's [recv] (243)
       ERun0 p    [catch_unwind(task.run(0))] (117-118)
       ELoad      [ref_count.load(Acquire) > 0] (125); leaving the loop returns from
-                 [broadcast] and the stack-pinned task block dies (92)
+                 [broadcast] and the stack-pinned task block dies (92).  The caller's
+                 caught payload is dropped only here, after the loop (131): if its
+                 destructor panics, the panic escapes from a broadcast whose calls are
+                 all done — for the model that is the same step as a return
       EPark / ESpurious   [thread::park()] (126) returning by token / spuriously
       EWRun k p  [catch_unwind(task.run(thread_id))] (247-250)
       EWClone k  [task.shared.as_ref().main_thread.clone()] (260-261)
@@ -572,7 +575,8 @@ Inductive ev :=
 | VLoad (v : nat)                   (* the caller's load returned v *)
 | VPark                             (* park returned by token *)
 | VSpur                             (* park returned without token *)
-| VRet (sl : list (option nat))     (* par_extend returned; the result slots *)
+| VRet (sl : list (option nat))     (* the caller left par_extend — by returning or by a panic escaping from
+                                       the drop of its caught payload; the result slots *)
 | VDrop                             (* the pool is dropped *)
 | VExit (t : nat)                   (* thread t finished *)
 | VDead (t : nat)                   (* t accessed a dead task block (harness liveness marker) *)
@@ -587,7 +591,7 @@ Definition F_spawn := 5.       (* workers after <> max (workers before) n *)
 Definition F_dead := 6.        (* access to a dead task block observed by the harness *)
 Definition F_foreign := 7.     (* event outside the protocol *)
 Definition F_incomplete := 8.  (* not every broadcast returned / pool not dropped (deadlock) *)
-Definition F_wake := 9.        (* the caller returned while the counter was non-zero *)
+Definition F_wake := 9.        (* the caller left broadcast (escaping panic included) while the counter was non-zero *)
 
 Record mon := {
   m_b : nat;                 (* number of the current / latest broadcast *)
